@@ -28,6 +28,12 @@ THEOREMS = [
     "C05_discr_call_history_free", "C05_discr_history", "C05_discr_variant_outcome_propagates",
 ]
 
+TYPED_THEOREMS = [
+    "C05_typed_link", "C05_typed_outcomes", "C05_typed_first_bad", "C05_typed_cause", "C05_typed_nested_cause",
+    "C05_list_exn", "C05_list_ok", "C05_list_not_iterable", "C05_dict_exn", "C05_dict_not_mapping", "C05_tuplefix_exn",
+    "C05_typeddict_exn", "C05_namedtuple_no_silent_default", "C05_namedtuple_exn",
+]
+
 UNION_MEMBERS = ["int", "float", "bool", "str", "None", "date", "UUID", "List[int]", "Dict[str, int]", "Inner",
                  "Color", "Any", "Tuple[int, str]"]
 SCALARS = {"int": "SInt", "float": "SFloat", "bool": "SBool", "str": "SStr", "None": "SNone"}
@@ -175,26 +181,36 @@ def _rename(term: str, h: dict) -> str:
 
 
 def hier_entry(h, mod, prefix):
-    """A FRESH entry point (own, empty registry) for the hierarchy materialised under prefix."""
+    """A FRESH entry point (own, empty registry) for the hierarchy materialised under prefix:
+    call(d, with_dialect) -> result; second component: the failure is wrapped by a holder field."""
     base = getattr(mod, f"{prefix}{h['idx']}")
     fl = h["flavour"]
+    kw = lambda wd: ({"dialect": mod.NoopDialect} if wd else {})   # noqa: E731
     if fl == "config-mixin":
-        return base.from_dict, False
+        return (lambda d, wd=False: base.from_dict(d, **kw(wd))), False
+    if fl == "config-msgpack":
+        import msgpack
+        return (lambda d, wd=False: base.from_msgpack(msgpack.packb(d), **kw(wd))), False
+    if fl == "config-orjson":
+        import json
+        return (lambda d, wd=False: base.from_json(json.dumps(d), **kw(wd))), False
     if fl == "config-codec":
-        return mod.BasicDecoder(base).decode, False
+        dec = mod.BasicDecoder(base).decode
+        return (lambda d, wd=False: dec(d)), False
     ann = typing.Annotated[base, mod.Discriminator(field=h["field"], include_subtypes=True)]
     if fl == "annotated-codec":
-        return mod.BasicDecoder(ann).decode, False
+        dec = mod.BasicDecoder(ann).decode
+        return (lambda d, wd=False: dec(d)), False
     holder = getattr(mod, f"{prefix}{h['idx']}Holder")
-    return (lambda d: holder.from_dict({"v": d})), True
+    return (lambda d, wd=False: holder.from_dict({"v": d})), True
 
 
-def unwrap_field(fn, d, wrapped):
+def unwrap_field(fn, d, wrapped, wd=False):
     """Outcome of the dispatch itself.  In the annotated-field flavour the holder turns every failure into
     InvalidFieldValue('v', d, Holder) (checked here); the dispatch's own exception is its __context__."""
     problems = []
     try:
-        r = fn(d)
+        r = fn(d, wd)
         exc = None
     except BaseException as e:  # noqa: BLE001
         if isinstance(e, (KeyboardInterrupt, SystemExit, MemoryError)):
@@ -217,6 +233,18 @@ def outcome_term(r, exc, key_order=None) -> str:
     return f"(Ok {enc_result(r)})"
 
 
+def fmt_safe(x):
+    """Inputs handed to a wire format must be representable in it (64-bit ints, str keys): stated restriction of the
+    format flavours; the same values are still used with the dict entry points."""
+    if type(x) is int and not -2 ** 63 <= x < 2 ** 63:
+        return 42
+    if isinstance(x, list):
+        return [fmt_safe(i) for i in x]
+    if isinstance(x, dict):
+        return {(k if isinstance(k, str) else str(k)): fmt_safe(v) for k, v in x.items()}
+    return x
+
+
 def hier_section(ctx, rng, n_hier: int):
     """Oracle + correspondence for the family: the chosen variant's own decoding fails (or succeeds) on the first
     call for a tag vs later calls, through Config discriminator (mixin, codec), Annotated discriminator (codec root,
@@ -226,18 +254,27 @@ def hier_section(ctx, rng, n_hier: int):
     for k in range(n_hier):
         h = G.gen_hierarchy(rng, k)
         src_real, src_twin = G.hier_source(h, "H"), G.hier_source(h, "T")
-        exec(compile(src_real + src_twin, f"<c05 hier {k}>", "exec"), pm.__dict__)
-        fn, wrapped = hier_entry(h, pm, "H")
+        try:
+            exec(compile(src_real + src_twin, f"<c05 hier {k}>", "exec"), pm.__dict__)
+            fn, wrapped = hier_entry(h, pm, "H")
+        except Exception as e:  # noqa: BLE001
+            build_failure(ctx, {"cls": f"H{k}", "source": src_real, "hier": h, "fields": [], "mixin": True, "forbid": False,
+                                "allow_nba": False, "discr": h["field"], "discr_keys": []}, e)
+            continue
         inputs = G.hier_inputs(rng, h)
+        if h["flavour"] in ("config-msgpack", "config-orjson"):
+            inputs = [fmt_safe(d) for d in inputs]
         walk = G.hier_walk(h)
         ctx.hist("hier_flavour", h["flavour"])
         vterms_tables = {i: [] for i in walk}
         observed = []
         schema = {"cls": f"H{h['idx']}", "source": src_real, "hier": h, "fields": [], "mixin": True, "forbid": False,
                   "allow_nba": False, "discr": h["field"], "discr_keys": []}
+        flags = [bool(h.get("dialect_support")) and rng.random() < 0.6 for _ in inputs]
+        by_format = h["flavour"] in ("config-msgpack", "config-orjson")
         for n, d in enumerate(inputs):
             before = copy.deepcopy(d)
-            r, exc, problems = unwrap_field(fn, d, wrapped)
+            r, exc, problems = unwrap_field(fn, d, wrapped, flags[n])
             key_order = list(d.keys()) if isinstance(d, dict) else None
             obs_term = outcome_term(r, exc, key_order)
             observed.append(obs_term)
@@ -282,12 +319,13 @@ def hier_section(ctx, rng, n_hier: int):
                             type(exc).__name__ == "InvalidFieldValue" and ok:
                         # the offending input OBJECT is reported (twin ran on a copy)
                         m = getattr(exc, "field_name", None)
-                        if isinstance(d, dict) and m in d and exc.field_value is not d[m]:
+                        if isinstance(d, dict) and m in d and exc.field_value is not d[m] and not by_format:
                             ok = False
                             exp_txt += " with field_value being the input object"
             fails = list(problems)
             if not ok:
-                fails.append(f"call #{n + 1} on a fresh hierarchy ({h['flavour']}, {G.pyexpr(d)[:120]}): observed {obs}, "
+                fails.append(f"call #{n + 1} on a fresh hierarchy ({h['flavour']}{', dialect=NoopDialect' if flags[n] else ''}, "
+                             f"{G.pyexpr(d)[:120]}): observed {obs}, "
                              f"expected {exp_txt}")
             if not O.deep_same(before, d):
                 fails.append(f"input object was modified: {before!r} -> {d!r}"[:300])
@@ -295,7 +333,8 @@ def hier_section(ctx, rng, n_hier: int):
             for what in fails:
                 ctx.fail(f"H{h['idx']}: {what}"[:500],
                          {"entry": "hier:" + h["flavour"], "schema": schema, "prelude": "harness.props.c05_gen.PRELUDE",
-                          "input_expr": repr(inputs[:n + 1]), "observed": obs, "expected": exp_txt},
+                          "input_expr": repr([[x, f] for x, f in zip(inputs[:n + 1], flags)]), "observed": obs,
+                          "expected": exp_txt},
                          {"kind": kind, "entry": h["flavour"], "first_call": n == 0})
             # -- model tables: every variant's own decoder on this input (twin classes)
             for i in walk:
@@ -564,6 +603,16 @@ def shape_problems(src: str, field_names: list[str], ident_names: set[str], forb
 
 # ---------------------------------------------------------------------------
 
+def build_failure(ctx, schema, e):
+    """Defining the class / compiling its from_dict raised: every deserialization of that class fails with an
+    exception outside the documented set."""
+    ctx.count(("build-failed", type(e).__name__))
+    ctx.fail(f"defining {schema['cls']} / generating its from_dict raised {type(e).__name__}: {O.str_safe(e)[:200]}",
+             {"entry": "build", "schema": schema, "prelude": "harness.props.c05_gen.PRELUDE", "input_expr": "{}",
+              "observed": f"{type(e).__name__}: {O.str_safe(e)[:200]}", "expected": "a class with a working from_dict"},
+             {"kind": "class-build-failed", "exception": type(e).__name__})
+
+
 def run_corr(ctx, name, cases, ok_fun, case_type, labels):
     if not cases:
         return
@@ -608,6 +657,12 @@ def run(ctx: vlib.Ctx):
         "value[str] on non-mappings raises TypeError, registry[tag] on an unhashable tag raises TypeError",
         "harness/props/c05_gen.py, c05_oracle.py: schema materialiser, independent computation of nullable/ident/keys/"
         "defaults per field (DESIGN A.2), value and outcome encoders, reference acceptance predicate",
+        "ErrsTy.v: error-faithful typed unpackers (ue) over TyModel's grammar/IR (cu, pdec, nt_items, td_go are TyModel's and "
+        "shared with C03); stdlib primitives (int/float/str, fromisoformat, UUID, Decimal, ip_*, Enum(), decodebytes ...) are "
+        "oracles returning a value or the exception class CPython raises - finite tables from the real leaf decoders in case "
+        "files, uninterpreted in theorems; compared with /repo on exception class + attributes + __context__ + value",
+        "ExcHier.builtin_bases: CPython's builtin exception hierarchy (fixed table); tools/kernels/k16_handlers.py: extraction of "
+        "the emitted `except` texts and of exceptions.py's class bases (fail-closed AST reader)",
         "discriminator registry: modelled as the lazily filled tag->variant map threaded through call histories "
         "(Errs.discr_call / discr_history); variant tags are strings; registration order = iter_all_subclasses walk "
         "(depth first, definition order) as computed by the harness; compared with /repo on fresh hierarchies per history",
@@ -623,14 +678,20 @@ def run(ctx: vlib.Ctx):
         "pass through before from_dict starts",
     ]
     ctx.theorems("props/C05_errors.vo", THEOREMS)
+    ctx.theorems("props/C05_typed.vo", TYPED_THEOREMS)
+    # (T) kernel K16: emitted handler classes + exceptions.py hierarchy, re-translated from /repo on every run
+    ctx.theorems("props/C05_handlers.vo", ["C05_k16_handlers_as_modelled", "C05_k16_documented_pass_through",
+                                           "C05_k16_model_patterns"], kernels=["K16"])
     if not ctx.quick():
-        # second opinion: the independent checker re-validates the compiled property file and its cone
-        rc, log, secs = vlib.run(["timeout", "900", "coqchk", "-silent", "-o", "-Q", "theories", "Verif", "-Q", "gen", "VerifGen",
-                                  "-Q", "props", "VerifProps", "VerifProps.C05_errors"], cwd=vlib.COQ, timeout=930)
+        # second opinion: the independent checker re-validates the compiled property files and their cone
+        rc, log, secs = vlib.run(["timeout", "1500", "coqchk", "-silent", "-o", "-Q", "theories", "Verif", "-Q", "gen", "VerifGen",
+                                  "-Q", "props", "VerifProps", "VerifProps.C05_errors", "VerifProps.C05_typed", "VerifProps.C05_handlers"],
+                                 cwd=vlib.COQ, timeout=1530)
         ok = rc == 0 and "Axioms: <none>" in log
-        ctx.obligation("coqchk VerifProps.C05_errors (no axioms)", ok, log[-400:])
+        ctx.obligation("coqchk VerifProps.C05_errors C05_typed C05_handlers (Axioms: <none>)", ok, log[-400:])
+        ctx.trusted.append("coqchk -o on C05_errors + C05_typed + C05_handlers: " + ("Axioms: <none>" if ok else "FAILED " + log[-200:]))
         if not ok:
-            ctx.not_shown("coqchk VerifProps.C05_errors", log[-800:])
+            ctx.not_shown("coqchk VerifProps.C05_errors/C05_typed", log[-800:])
 
     rng = ctx.rng
     n_schemas = ctx.budget(140, 2000)
@@ -642,13 +703,36 @@ def run(ctx: vlib.Ctx):
     shape_detail = []
     try:
         schemas = []
-        with Recorder() as rec:
+        try:
             G.prelude_module()
+        except Exception as e:  # noqa: BLE001 - the fixed classes (field-less bases, hierarchies, nested classes) do not build
+            first = "P_first"
+            for blk in G.PRELUDE.split("@dataclass\n")[1:]:
+                # the first class of the prelude that cannot be defined, alone on top of the imports
+                src = "@dataclass\n" + blk
+                try:
+                    exec(compile(G.PRELUDE.split("@dataclass\n")[0].split("class D2")[0] + src, "<c05 prelude part>", "exec"), {})
+                except NameError:
+                    continue
+                except Exception as e2:  # noqa: BLE001
+                    build_failure(ctx, {"cls": src.split("class ")[1].split("(")[0].split(":")[0], "source": src, "fields": [],
+                                        "mixin": True, "forbid": False, "allow_nba": False, "discr": None, "discr_keys": [],
+                                        "standalone": True}, e2)
+                    break
+            else:
+                build_failure(ctx, {"cls": "prelude", "source": G.PRELUDE, "fields": [], "mixin": True, "forbid": False,
+                                    "allow_nba": False, "discr": None, "discr_keys": [], "standalone": True}, e)
+            return
+        with Recorder() as rec:
             for i in range(n_schemas):
                 s = G.gen_schema(rng, i)
                 before = len(rec.programs)
-                mod = G.build_module(s)
-                ents = entries(s, mod)       # forces compilation of both entry points
+                try:
+                    mod = G.build_module(s)
+                    ents = entries(s, mod)       # forces compilation of both entry points
+                except Exception as e:  # noqa: BLE001 - a class whose from_dict cannot even be generated
+                    build_failure(ctx, s, e)
+                    continue
                 progs = rec.programs[before:]
                 schemas.append((s, mod, ents))
                 # structural tie on every captured from_dict program of this class
@@ -710,7 +794,12 @@ def run(ctx: vlib.Ctx):
 
         # ---- known-finding probes
         for s, d_desc in PROBES:
-            mod = G.build_module(s)
+            try:
+                mod = G.build_module(s)
+                entries(s, mod)
+            except Exception as e:  # noqa: BLE001
+                build_failure(ctx, s, e)
+                continue
             ref = O.Ref(mod)
             metas = O.field_meta(s, mod)
             for entry, fn in entries(s, mod):
@@ -766,6 +855,19 @@ def run(ctx: vlib.Ctx):
                 ucases.append(union_case(pm, ref, members, v))
                 ulabels.append(f"Union[{', '.join(members)}] <- {v!r}"[:120])
 
+        # ---- type level: error-faithful typed unpackers (ErrsTy.ue) vs BasicDecoder / from_dict
+        from harness.props import c05_typed
+        tcases, tbad, tlog = c05_typed.run(ctx, ctx.budget(45, 500), ctx.budget(2, 3))
+        if tbad is None:
+            ctx.correspondence("c05_typed", len(tcases), -1, tlog)
+            ctx.not_shown("correspondence c05_typed", tlog)
+        else:
+            det = "; ".join(f"{c05_typed.gen.py_ann(tcases[i]['t'])} via {tcases[i]['entry'][0]} <- {tcases[i]['input']!r}: impl {tcases[i]['term']} ctx {tcases[i]['cx']}"[:400]
+                            for i in tbad[:6])
+            ctx.correspondence("c05_typed", len(tcases), len(tbad), det)
+            if tbad:
+                ctx.not_shown("correspondence c05_typed", f"{len(tbad)} of {len(tcases)} cases differ: {det}")
+        ctx.count(n=len(tcases))
         hic, hil = hier_section(ctx, rng, ctx.budget(120, 1500))
         run_corr(ctx, "c05_discr_history", hic,
                  "fun c => match c with (f, vs, ins, outs) => list_eqb res_eqb (discr_history f vs [] ins) outs end",
@@ -795,6 +897,39 @@ def _is_root_program(p: str, s: dict) -> bool:
 
 def replay(rep: dict) -> int:
     schema = rep["schema"]
+    if rep.get("entry", "").startswith("typed:"):
+        from harness import gen as HG
+        ns = HG.build_module(schema["source"])
+        ty = eval(rep["type_expr"], dict(ns))
+        d = eval(rep["input_expr"], dict(ns))
+        from mashumaro.codecs.basic import BasicDecoder
+        try:
+            r = ty.from_dict(d) if rep["entry"] == "typed:from_dict" else BasicDecoder(ty).decode(d)
+            got = HG.py_src(r)[:400]
+        except Exception as e:  # noqa: BLE001
+            got = type(e).__name__
+        print(f"{rep['type_expr']} <- {rep['input_expr']}: {got}")
+        print("recorded:", rep.get("outcome"), "|", rep.get("observed"))
+        print("REPRODUCED" if got == rep.get("outcome") else "not reproduced")
+        return 1 if got == rep.get("outcome") else 0
+    if rep.get("entry") == "build":
+        try:
+            if schema.get("standalone"):
+                exec(compile(G.PRELUDE.split("@dataclass\n")[0].split("class D2")[0] + schema["source"], "<c05 replay>", "exec"), {})
+            elif "hier" in schema:
+                pm = G.prelude_module()
+                exec(compile(schema["source"], "<c05 replay build>", "exec"), pm.__dict__)
+                hier_entry(schema["hier"], pm, "H")
+            else:
+                entries(schema, G.build_module(schema, fresh_prelude=True))
+            print("class builds fine: not reproduced")
+            return 0
+        except Exception as e:  # noqa: BLE001
+            print(f"building {schema['cls']} raised {type(e).__name__}: {e}")
+            print("REPRODUCED")
+            return 1
+        finally:
+            G.cleanup_modules()
     if rep.get("entry", "").startswith("hier:"):
         try:
             h = schema["hier"]
@@ -803,8 +938,8 @@ def replay(rep: dict) -> int:
             fn, wrapped = hier_entry(h, pm, "H")
             history = eval(rep["input_expr"])
             obs = ""
-            for d in history:
-                r, exc, problems = unwrap_field(fn, d, wrapped)
+            for d, wd in history:
+                r, exc, problems = unwrap_field(fn, d, wrapped, wd)
                 obs = f"{type(exc).__name__}({O._attrs(exc)})" if exc is not None else f"returned {r!r}"[:200]
                 print(f"  {h['flavour']} <- {d!r}: {obs}")
             same = obs == rep.get("observed")
